@@ -1,12 +1,348 @@
-//! C13: not yet implemented
+//! C13: textures decode to the pixels their format defines (`Texture::from_existing`).
+//!
+//! Case grammar (abstract, the file itself is produced by the Lean `Spec.Tex.encode`):
+//!   `tex <attribute> <format code> <width> <height> <depth> <mips> <64 bytes hex offsets> <payload hex>`
+//! Run input: `tex <file hex>`; answer `<w> <h> <d> <2d|3d> <rgba hex>` | `none` | `panic:<site>`.
 #![allow(unused)]
 use crate::util::*;
 use std::io::Write;
 
-pub fn generate(thorough: bool, seed: u64, out: &mut dyn Write) {}
+const BGRA: u32 = 0x1450;
+const BC1: u32 = 0x3420;
+const BC3: u32 = 0x3431;
+const BC5: u32 = 0x6230;
+const FORMATS: [u32; 4] = [BGRA, BC1, BC3, BC5];
+
+fn block_bytes(fmt: u32) -> usize {
+    match fmt {
+        BC1 => 8,
+        _ => 16,
+    }
+}
+
+/// payload bytes needed (slices stored one after the other; equals the decoder's own count
+/// whenever depth <= 1 or height % 4 == 0, which is the property's quantifier)
+fn needed(fmt: u32, w: usize, h: usize, d: usize) -> usize {
+    if fmt == BGRA {
+        w * h * d * 4
+    } else {
+        d * ((w + 3) / 4) * ((h + 3) / 4) * block_bytes(fmt)
+    }
+}
+
+fn attr(rng: &mut Rng) -> u32 {
+    match rng.below(6) {
+        0 => 0,
+        1 => 0x0080_0000,              // TEXTURE_TYPE2_D
+        2 => 0x0100_0000,              // TEXTURE_TYPE3_D
+        3 => !0x0100_0000u32,          // everything but the 3-D bit
+        4 => 0xFFFF_FFFF,
+        _ => rng.next() as u32,
+    }
+}
+
+fn offsets(rng: &mut Rng) -> Vec<u8> {
+    if rng.chance(1, 2) {
+        // the usual layout: lod offsets 0,1,2; first surface at 80
+        let mut v = Vec::new();
+        for x in [0u32, 1, 2, 80, 0, 0, 0, 0, 0, 0, 0, 0, 0, 0, 0, 0] {
+            v.extend_from_slice(&x.to_le_bytes());
+        }
+        v
+    } else {
+        rng.bytes(64)
+    }
+}
+
+/// force the colour half of a BC1-style block into `q0 > q1` (4-colour mode), keeping the bits
+fn force_four_colour(cb: &mut [u8], rng: &mut Rng) {
+    let q0 = u16::from_le_bytes([cb[0], cb[1]]);
+    let q1 = u16::from_le_bytes([cb[2], cb[3]]);
+    let (mut a, mut b) = if q0 >= q1 { (q0, q1) } else { (q1, q0) };
+    if a == b {
+        if a == 0 { a = 1 + rng.below(0xFFFF) as u16 } else { b = rng.below(a as u64) as u16 }
+    }
+    cb[0..2].copy_from_slice(&a.to_le_bytes());
+    cb[2..4].copy_from_slice(&b.to_le_bytes());
+}
+
+/// one random block with endpoint orderings / selector patterns biased to the interesting ones
+fn block(fmt: u32, rng: &mut Rng, bc3_in_class: bool) -> Vec<u8> {
+    fn colour(rng: &mut Rng) -> Vec<u8> {
+        let q0 = match rng.below(6) { 0 => 0, 1 => 0xFFFF, 2 => 0x8000, _ => rng.next() as u16 };
+        let q1 = match rng.below(8) {
+            0 => q0,
+            1 => q0.wrapping_add(1),
+            2 => q0.wrapping_sub(1),
+            3 => 0,
+            4 => 0xFFFF,
+            _ => rng.next() as u16,
+        };
+        let sel: u32 = match rng.below(6) {
+            0 => 0x0000_0000,
+            1 => 0xFFFF_FFFF,
+            2 => 0xE4E4_E4E4, // 0,1,2,3 in every row
+            3 => 0x1B1B_1B1B,
+            _ => rng.next() as u32,
+        };
+        let mut v = Vec::new();
+        v.extend_from_slice(&q0.to_le_bytes());
+        v.extend_from_slice(&q1.to_le_bytes());
+        v.extend_from_slice(&sel.to_le_bytes());
+        v
+    }
+    fn alpha(rng: &mut Rng) -> Vec<u8> {
+        let a0 = match rng.below(6) { 0 => 0, 1 => 255, _ => rng.next() as u8 };
+        let a1 = match rng.below(8) {
+            0 => a0,
+            1 => a0.wrapping_add(1),
+            2 => a0.wrapping_sub(1),
+            3 => 0,
+            4 => 255,
+            _ => rng.next() as u8,
+        };
+        let sel: u64 = match rng.below(5) {
+            0 => 0,
+            1 => 0xFFFF_FFFF_FFFF,
+            2 => 0xFAC6_88FA_C688, // 0..7,0..7
+            _ => rng.next() & 0xFFFF_FFFF_FFFF,
+        };
+        let mut v = vec![a0, a1];
+        v.extend_from_slice(&sel.to_le_bytes()[..6]);
+        v
+    }
+    match fmt {
+        BC1 => colour(rng),
+        BC3 => {
+            let mut v = alpha(rng);
+            let mut c = colour(rng);
+            if !bc3_in_class {
+                force_four_colour(&mut c, rng);
+            }
+            v.extend(c);
+            v
+        }
+        _ => {
+            let mut v = alpha(rng);
+            v.extend(alpha(rng));
+            v
+        }
+    }
+}
+
+fn payload(fmt: u32, w: usize, h: usize, d: usize, rng: &mut Rng, bc3_in_class: bool) -> Vec<u8> {
+    let n = needed(fmt, w, h, d);
+    let mut p = if fmt == BGRA {
+        rng.bytes(n)
+    } else if rng.chance(1, 3) {
+        // uniform bytes
+        let mut p = rng.bytes(n);
+        if fmt == BC3 && !bc3_in_class {
+            for b in p.chunks_mut(16) {
+                force_four_colour(&mut b[8..], rng);
+            }
+        }
+        p
+    } else {
+        let mut p = Vec::with_capacity(n);
+        while p.len() < n {
+            p.extend(block(fmt, rng, bc3_in_class));
+        }
+        p
+    };
+    // sometimes the file continues after the first surface (mip chain): extra bytes are ignored
+    match rng.below(4) {
+        0 => {
+            let k = rng.range(1, 40) as usize;
+            p.extend(rng.bytes(k))
+        }
+        _ => {}
+    }
+    p
+}
+
+fn emit(out: &mut dyn Write, attr: u32, fmt: u32, w: usize, h: usize, d: usize, mips: u16, offs: &[u8], p: &[u8]) {
+    writeln!(out, "tex {} {} {} {} {} {} {} {}", attr, fmt, w, h, d, mips, hex(offs), hex(p)).unwrap();
+}
+
+fn dim(rng: &mut Rng, max: u64) -> usize {
+    (match rng.below(10) {
+        0 => *rng.pick(&[1u64, 2, 3, 4, 5, 7, 8, 9]),
+        1..=5 => rng.range(1, 20),
+        6 | 7 => rng.range(1, 64),
+        _ => rng.range(1, max),
+    })
+    .min(max) as usize
+}
+
+pub fn generate(thorough: bool, seed: u64, out: &mut dyn Write) {
+    let mut rng = Rng::new(seed, "C13");
+    let std_offs = {
+        let mut v = Vec::new();
+        for x in [0u32, 1, 2, 80, 0, 0, 0, 0, 0, 0, 0, 0, 0, 0, 0, 0] {
+            v.extend_from_slice(&x.to_le_bytes());
+        }
+        v
+    };
+
+    // ---- (1) every small size: all formats, w,h in 1..=9, depth 1 (partial edge blocks)
+    for &fmt in &FORMATS {
+        for w in 1..=9usize {
+            for h in 1..=9usize {
+                let p = payload(fmt, w, h, 1, &mut rng, false);
+                emit(out, attr(&mut rng), fmt, w, h, 1, 1, &std_offs, &p);
+            }
+        }
+    }
+
+    // ---- (2) per-block sweeps, packed as many blocks per texture as fit a 64-block row strip
+    // BC1: endpoint orderings q0 <,=,> q1 with all 256 selector bytes in every row position
+    {
+        let strip = |blocks: &Vec<Vec<u8>>, fmt: u32, out: &mut dyn Write| {
+            for chunk in blocks.chunks(64) {
+                let p: Vec<u8> = chunk.iter().flatten().cloned().collect();
+                emit(out, 0, fmt, chunk.len() * 4, 4, 1, 1, &std_offs, &p);
+            }
+        };
+        let mut blocks = Vec::new();
+        let n_pairs = if thorough { 96 } else { 12 };
+        for k in 0..n_pairs {
+            let hi = rng.range(1, 0xFFFF) as u16;
+            let lo = rng.below(hi as u64) as u16;
+            let (q0, q1) = match k % 3 {
+                0 => (hi, lo),
+                1 => (hi, hi),
+                _ => (lo, hi),
+            };
+            for s in 0..256u32 {
+                let row = s as u8;
+                let other = rng.next() as u32;
+                for pos in 0..4 {
+                    let mut sel = other.to_le_bytes();
+                    sel[pos] = row;
+                    let mut b = Vec::new();
+                    b.extend_from_slice(&q0.to_le_bytes());
+                    b.extend_from_slice(&q1.to_le_bytes());
+                    b.extend_from_slice(&sel);
+                    if thorough || pos == (s as usize % 4) {
+                        blocks.push(b);
+                    }
+                }
+            }
+        }
+        strip(&blocks, BC1, out);
+
+        // RGB565 expansion: every 16-bit endpoint value appears as q0 (selector 0) and q1 (selector 1)
+        let mut blocks = Vec::new();
+        let step = if thorough { 1 } else { 16 };
+        let mut q: u32 = 0;
+        while q < 65536 {
+            let q0 = q as u16;
+            let q1 = (q as u16) ^ (rng.next() as u16 | 1);
+            let mut b = Vec::new();
+            b.extend_from_slice(&q0.to_le_bytes());
+            b.extend_from_slice(&q1.to_le_bytes());
+            b.extend_from_slice(&0xE4E4_E4E4u32.to_le_bytes());
+            blocks.push(b);
+            q += if thorough { 1 } else { 1 + rng.below(2 * step) as u32 };
+        }
+        strip(&blocks, BC1, out);
+
+        // alpha palette: all (a0, a1) in 256² (thorough) with every selector 0..7 visible
+        let mut b3 = Vec::new();
+        let mut b5 = Vec::new();
+        for a0 in 0..256u32 {
+            for a1 in 0..256u32 {
+                if !thorough && !(a0 == a1 || a0 == a1 + 1 || a0 + 1 == a1 || rng.chance(1, 12)) {
+                    continue;
+                }
+                let mut al = vec![a0 as u8, a1 as u8];
+                al.extend_from_slice(&0xFAC6_88FA_C688u64.to_le_bytes()[..6]);
+                let mut blk = al.clone();
+                let mut c = rng.bytes(8);
+                force_four_colour(&mut c, &mut rng);
+                blk.extend(c);
+                b3.push(blk);
+                let mut blk = al.clone();
+                blk.push(a1 as u8);
+                blk.push(a0 as u8);
+                blk.extend_from_slice(&0x0539_7705_3977u64.to_le_bytes()[..6]);
+                b5.push(blk);
+            }
+        }
+        strip(&b3, BC3, out);
+        strip(&b5, BC5, out);
+    }
+
+    // ---- (3) random textures from the property's quantifier, with (4) a few large ones
+    // interleaved (thorough: up to 512 x 512 and 512 x 128 x 8)
+    let big: &[(usize, usize, usize)] = if thorough {
+        &[(512, 512, 1), (511, 509, 1), (512, 128, 8), (257, 255, 1), (130, 64, 8), (509, 3, 1), (3, 509, 1),
+          (512, 4, 8), (100, 100, 1), (64, 64, 8), (255, 257, 1), (16, 512, 1)]
+    } else {
+        &[(130, 127, 1), (64, 32, 4), (257, 5, 1), (6, 255, 1)]
+    };
+    let mut bigs: Vec<(u32, usize, usize, usize)> = Vec::new();
+    for &(w, h, d) in big {
+        for &fmt in &FORMATS {
+            bigs.push((fmt, w, h, d));
+        }
+    }
+    let n = if thorough { 40_000 } else { 5_000 };
+    let every = n / bigs.len().max(1);
+    for i in 0..n {
+        if i % every == 0 {
+            if let Some((fmt, w, h, d)) = bigs.pop() {
+                let p = payload(fmt, w, h, d, &mut rng, false);
+                emit(out, attr(&mut rng), fmt, w, h, d, 1, &std_offs, &p);
+            }
+        }
+        let fmt = *rng.pick(&FORMATS);
+        let (w, h, d) = match rng.below(12) {
+            // 3-D: depth 2..8, height a multiple of 4
+            0 | 1 | 2 => {
+                let d = rng.range(2, 8) as usize;
+                let h = if fmt == BGRA && rng.chance(1, 2) { dim(&mut rng, 40) } else { 4 * rng.range(1, 10) as usize };
+                (dim(&mut rng, 40), h, d)
+            }
+            // long thin images up to 512
+            3 => (rng.range(1, 512) as usize, dim(&mut rng, 12), 1),
+            4 => (dim(&mut rng, 12), rng.range(1, 512) as usize, 1),
+            5 => (*rng.pick(&[509usize, 510, 511, 512]), rng.range(1, 9) as usize, 1),
+            _ => (dim(&mut rng, 96), dim(&mut rng, 96), 1),
+        };
+        let in_class = fmt == BC3 && rng.chance(1, 12);
+        let p = payload(fmt, w, h, d, &mut rng, in_class);
+        let offs = offsets(&mut rng);
+        let mips = match rng.below(3) { 0 => 1, 1 => rng.range(0, 12) as u16, _ => rng.next() as u16 };
+        emit(out, attr(&mut rng), fmt, w, h, d, mips, &offs, &p);
+    }
+
+    // ---- (5) degenerate sizes (no pixels): tagged trivial by the driver
+    for &fmt in &FORMATS {
+        for &(w, h, d) in &[(0usize, 5usize, 1usize), (5, 0, 1), (5, 5, 0), (0, 0, 0)] {
+            let p = rng.bytes(8);
+            emit(out, attr(&mut rng), fmt, w, h, d, 1, &std_offs, &p);
+        }
+    }
+}
 
 pub fn run(case: &str, input: &str) -> String {
-    "unimplemented".to_string()
+    let f: Vec<&str> = input.split(' ').collect();
+    if f.len() != 2 || f[0] != "tex" {
+        return "bad-case".into();
+    }
+    let Some(bytes) = unhex(f[1]) else { return "bad-case".into() };
+    guarded(move || match physis::tex::Texture::from_existing(&bytes) {
+        None => "none".to_string(),
+        Some(t) => {
+            let ty = match t.texture_type {
+                physis::tex::TextureType::TwoDimensional => "2d",
+                physis::tex::TextureType::ThreeDimensional => "3d",
+            };
+            format!("{} {} {} {} {}", t.width, t.height, t.depth, ty, hex(&t.rgba))
+        }
+    })
 }
 
 pub fn dump(out: &mut dyn Write) {}
